@@ -215,6 +215,8 @@ pub fn kappa(op: Op) -> f64 {
         Mul | MulF(_) | DivF(_) => 8.0,
         Div | Recip | Inv => 32.0,
         MulAdd => 16.0,
+        // plain-float powi is repeated squaring: relative error up to |n| u / 2
+        Powi(n) => 128.0 + 4.0 * (n as f64).abs(),
         _ => 128.0,
     }
 }
@@ -271,8 +273,11 @@ fn smooth(f: Func, x: &Val, kap: f64, u: f64) -> Val {
     let v = x.v.apply(&c[..=k]);
     let ax = x.v.abs();
     let m = ax.apply(&abs_coefs(&c[..=k]));
-    let dg = ax.apply(&abs_coefs(&deriv_coefs(&c)));
-    let e = dg.mul(&x.e).add(&m.scale(&DD::f(kap * u)));
+    let mut e = m.scale(&DD::f(kap * u));
+    if x.e.c.iter().any(|c| !c.is_zero()) {
+        let dg = ax.apply(&abs_coefs(&deriv_coefs(&c)));
+        e = e.add(&dg.mul(&x.e));
+    }
     Val { v, e }
 }
 
@@ -376,6 +381,20 @@ pub fn apply_ref(op: Op, a: &[Val], u: f64) -> Val {
             let p = mul_val(x, &a[1], kappa(Mul), u);
             add_val(&p, &a[2], false, kappa(Add), u)
         }
+        Powf(p) => {
+            // conditioning with respect to the (rounded) exponent: + kappa u |p| |dc_k/dp| |N|^k
+            let mut r = smooth(Func::Powf(p), x, kap, u);
+            let k = x.v.shape.maxdeg;
+            let h = 2.0f64.powi(-30);
+            if p != 0.0 && !x.v.re().is_zero() {
+                let c0 = cached_taylor(Func::Powf(p), *x.v.re(), k + 1);
+                let c1 = cached_taylor(Func::Powf(p * (1.0 + h)), *x.v.re(), k + 1);
+                let dc: Vec<DD> = c0.iter().zip(&c1).map(|(a, b)| b.sub_dd(*a).abs_dd().mul_f(1.0 / h)).collect();
+                let extra = x.v.abs().apply(&dc[..=k]).scale(&DD::f(kap * u));
+                r.e = r.e.add(&extra);
+            }
+            r
+        }
         BesselJ0 | BesselJ1 | BesselJ2 => {
             // absolute scale (all derivatives of J_n are bounded by 1; the implementation
             // differentiates rational / asymptotic approximants): + kappa_k u sum |N^k|
@@ -446,6 +465,19 @@ pub fn defining_bound(op: Op, a: &[Val], u: f64) -> Option<Jet<DD>> {
             let num = add_val(&d3, &x2s, true, kappa(Sub), u);
             let den = mul_val(&x2, x, kappa(Mul), u);
             apply_ref(Div, &[num, den], u).e
+        }
+        Powf(p) if p != 0.0 && p != 1.0 && (p - 2.0).abs() >= 2.0 * u && !x.v.re().is_zero() => {
+            // general branch: x^(p-3) * x * x * x, evaluated in (nested) dual arithmetic
+            let q = smooth(Func::Powf(p - 3.0), x, kappa(Powf(p)), u);
+            let a1 = mul_val(&q, x, kappa(Mul), u);
+            let a2 = mul_val(&a1, x, kappa(Mul), u);
+            mul_val(&a2, x, kappa(Mul), u).e
+        }
+        Powi(n) if !(0..=2).contains(&n) && !x.v.re().is_zero() => {
+            let q = smooth(Func::Powi(n as i64 - 3), x, kappa(Powi(n)), u);
+            let a1 = mul_val(&q, x, kappa(Mul), u);
+            let a2 = mul_val(&a1, x, kappa(Mul), u);
+            mul_val(&a2, x, kappa(Mul), u).e
         }
         BesselJ2 => {
             // 2 J1 / x - J0 away from the small-argument series
